@@ -1,3 +1,117 @@
-(* C04 placeholder: statements are added below as they are proved. *)
-From Coq Require Import Reals.
-Require Import Cox.Num.Ops Cox.Model.Polygon.
+(* C04 — polygon area, signed area, centroid and planar moments equal the exact integrals, for either vertex
+   orientation and any plane.  Level 0 (TriangleIntegrals): the shoelace edge terms are the integrals of 1, x, y^2,
+   x^2, xy over the signed triangle (0, v_i, v_{i+1}) (Coquelicot RInt over the standard simplex, Jacobian a x b);
+   the signed fan decomposition of a simple polygon itself is the modelled step. *)
+From Coq Require Import Reals QArith Qreals List Lia Lra.
+Require Import Cox.Num.Ops Cox.Num.Transfer Cox.Geo.Vec Cox.Geo.Sums Cox.Model.Polygon Cox.Model.Entry
+  Cox.Thm.PolygonThm Cox.Thm.TriangleIntegrals Cox.Thm.PolygonFan Cox.Thm.PolygonTransfer.
+Import ListNotations.
+Local Open Scope R_scope.
+
+(* signed area: the projection formula of the code sums exactly the p-th component of the vector area *)
+Theorem C04_projection_is_vector_area :
+  forall p V, (p < 3)%nat -> sproj Rops p V = vcomp p (A2 Rops V).
+Proof. exact sproj_is_A2_component. Qed.
+Print Assumptions C04_projection_is_vector_area.
+
+(* ... so for a planar polygon (vector area parallel to N) the code's coefficient is (N.A2)/(2 N.N): the exact signed
+   area about N, divided by |N| *)
+Theorem C04_signed_area :
+  forall N V lam, A2 Rops V = vscale Rops lam N -> vcomp (argmax3 Rops N) N <> 0 ->
+    sa_coef Rops N V = sa_spec_coef Rops N V.
+Proof. exact sa_coef_exact. Qed.
+Print Assumptions C04_signed_area.
+
+(* orientation: reversing the vertex order negates the vector area, a cyclic shift leaves it alone *)
+Theorem C04_orientation :
+  forall p V, (p < 3)%nat ->
+    vcomp p (A2 Rops (rev V)) = - vcomp p (A2 Rops V) /\ vcomp p (A2 Rops (roll V)) = vcomp p (A2 Rops V).
+Proof. intros p V Hp. split; [apply A2_reverse | apply A2_cyclic_shift]; exact Hp. Qed.
+Print Assumptions C04_orientation.
+
+(* centroid of the (repaired) code = the exact centroid, either orientation *)
+Theorem C04_centroid :
+  forall N V lam, A2 Rops V = vscale Rops lam N -> vcomp (argmax3 Rops N) N <> 0 ->
+    pcentroid_code Rops false N V = pcentroid_spec Rops N V.
+Proof. exact pcentroid_code_exact. Qed.
+Print Assumptions C04_centroid.
+
+(* the code as found (|area| in the denominator) is right for counter-clockwise input only ... *)
+Theorem C04_centroid_abs_ccw_partial :
+  forall N V, 0 <= sa_coef Rops N V -> pcentroid_code Rops true N V = pcentroid_code Rops false N V.
+Proof. exact pcentroid_abs_ccw_partial. Qed.
+Print Assumptions C04_centroid_abs_ccw_partial.
+
+(* ... and refuted on the clockwise unit square about +z (the defect repaired by fix 85d8dc5) *)
+Definition sq_cw : list (vec3 Q) := [(0,0,0); (0,1,0); (1,1,0); (1,0,0)]%Q.
+Theorem C04_centroid_abs_refuted :
+  pcentroid_code Qops true (0,0,1)%Q sq_cw <> pcentroid_spec Qops (0,0,1)%Q sq_cw
+  /\ pcentroid_code Qops false (0,0,1)%Q sq_cw = pcentroid_spec Qops (0,0,1)%Q sq_cw.
+Proof. vm_compute. split; [discriminate | reflexivity]. Qed.
+Print Assumptions C04_centroid_abs_refuted.
+
+(* shoelace sums = signed fan sums of the triangle integrals *)
+Theorem C04_sums_are_integrals :
+  forall V, Sa Rops V = 2 * fan_int (fun _ _ => 1) V /\ Sx Rops V = 12 * fan_int (fun _ y => y ^ 2) V
+         /\ Sy Rops V = 12 * fan_int (fun x _ => x ^ 2) V /\ Sxy Rops V = 24 * fan_int (fun x y => x * y) V.
+Proof. intros V. repeat split; [apply Sa_is_fan | apply Sx_is_fan | apply Sy_is_fan | apply Sxy_is_fan]. Qed.
+Print Assumptions C04_sums_are_integrals.
+
+Theorem C04_triangle_integrals :
+  forall ax ay bx by_,
+    tri_int (fun _ _ => 1) ax ay bx by_ = (ax * by_ - ay * bx) / 2
+    /\ tri_int (fun x _ => x) ax ay bx by_ = (ax * by_ - ay * bx) * (ax + bx) / 6
+    /\ tri_int (fun x _ => x ^ 2) ax ay bx by_ = (ax * by_ - ay * bx) * (ax * ax + ax * bx + bx * bx) / 12
+    /\ tri_int (fun _ y => y ^ 2) ax ay bx by_ = (ax * by_ - ay * bx) * (ay * ay + ay * by_ + by_ * by_) / 12
+    /\ tri_int (fun x y => x * y) ax ay bx by_ = (ax * by_ - ay * bx) * (ax * by_ + 2 * (ax * ay + bx * by_) + bx * ay) / 24.
+Proof. intros. repeat split; [apply tri_one | apply tri_x | apply tri_xx | apply tri_yy | apply tri_xy]. Qed.
+Print Assumptions C04_triangle_integrals.
+
+(* the fan-sum area does not depend on the apex *)
+Theorem C04_area_apex_free :
+  forall c V, Sa Rops (map (fun v => vsub Rops v c) V) = Sa Rops V.
+Proof. exact Sa_translation. Qed.
+Print Assumptions C04_area_apex_free.
+
+(* planar moments of the (repaired) code: the orientation-corrected integrals *)
+Theorem C04_planar_moments :
+  forall V, 0 <= sgnT Rops (Sa Rops V) * Sx Rops V -> 0 <= sgnT Rops (Sa Rops V) * Sy Rops V -> Sa Rops V <> 0 ->
+    planar_moments Rops false V = planar_moments_spec Rops V.
+Proof. exact planar_moments_exact. Qed.
+Print Assumptions C04_planar_moments.
+
+Theorem C04_planar_moments_orientation_free :
+  forall V, planar_moments_spec Rops (rev V) = planar_moments_spec Rops V.
+Proof. exact planar_moments_spec_orientation_free. Qed.
+Print Assumptions C04_planar_moments_orientation_free.
+
+(* the code as found (abs of the xy sum) is wrong whenever the true product of inertia is negative
+   (the defect repaired by fix c2353e4) *)
+Theorem C04_planar_moments_abs_refuted :
+  forall V, sgnT Rops (Sa Rops V) * Sxy Rops V < 0 ->
+    nth 2 (planar_moments Rops true V) 0 <> nth 2 (planar_moments_spec Rops V) 0.
+Proof. exact planar_moments_abs_refuted_shape. Qed.
+Print Assumptions C04_planar_moments_abs_refuted.
+
+(* the executable (rational) model computes what the theorems speak about *)
+Theorem C04_transfer :
+  forall N V b,
+    Q2R (sa_coef Qops N V) = sa_coef Rops (Q2R3 N) (map Q2R3 V)
+    /\ Q2R3 (pcentroid_code Qops b N V) = pcentroid_code Rops b (Q2R3 N) (map Q2R3 V)
+    /\ map Q2R (planar_moments Qops b V) = planar_moments Rops b (map Q2R3 V)
+    /\ (forall c, Q2R (polar_coef Qops N c V) = polar_coef Rops (Q2R3 N) (Q2R3 c) (map Q2R3 V)).
+Proof.
+  intros N V b. repeat split; [apply sa_coef_transfer | apply pcentroid_code_transfer | apply planar_moments_transfer |].
+  intros c. apply polar_coef_transfer.
+Qed.
+Print Assumptions C04_transfer.
+
+(* hypotheses are satisfiable: a non-convex counter-clockwise L-shape with a negative-xy lobe *)
+Definition ell_ccw : list (vec3 Q) := [(0,0,0); (2,0,0); (2,-1,0); (3,-1,0); (3,1,0); (0,1,0)]%Q.
+Example C04_hypotheses :
+  (sa_coef Qops (0,0,1)%Q ell_ccw == sa_spec_coef Qops (0,0,1)%Q ell_ccw)%Q
+  /\ (sa_coef Qops (0,0,1)%Q ell_ccw == 4)%Q
+  /\ (sa_coef Qops (0,0,1)%Q (rev ell_ccw) == -4)%Q
+  /\ planar_moments Qops false ell_ccw = planar_moments_spec Qops ell_ccw
+  /\ planar_moments Qops false (rev ell_ccw) = planar_moments_spec Qops ell_ccw.
+Proof. vm_compute. repeat split. Qed.
